@@ -9,12 +9,16 @@ MANIFEST = {
             "klass : module name -> code class [separation], and the per-module clause 'file-scope names are distinct "
             "valid C identifiers' (ValidIdent is defined in the spec over code points).  TLC checks the intended design "
             "exhaustively and refutes four designs that fall short: names from a lossy rendering of the evaluation points "
-            "(Separating), object names ignoring the position in the request (DistinctObjects), names depending on the "
-            "hash seed or on a counter (Stable).  spec -> code: the request algebra is the spec's Req = Sig x n x Vis x Hid "
+            "(Separating), names ignoring the option files (Separating), object names ignoring the position in the request "
+            "(DistinctObjects), names depending on the hash seed or on a counter (Stable).  spec -> code: the request algebra is the spec's Req = Sig x n x Vis x Hid "
             "x Opt x Flag, enumerated exhaustively by TLC axis by axis (evaluation points: 5 arrays x {same, +1e-10, "
             "changed in the middle}, >1000 entries, float32/float64, n x 2 vs 2n x 1; literals differing by 1e-10 / 1 ulp; "
             "every scalar type; every option toggled; compile arguments permuted/extended; cffi_debug; the same form "
-            "listed twice) and simulated in long 3-process histories with junk objects and other compilations in between.  "
+            "listed twice; the option files a process finds - Spawn(p, seed, conf) with conf in none / $PWD/ffcx_options.json / "
+            "$XDG_CONFIG_HOME/ffcx/ffcx_options.json carrying scalar_type, epsilon, table_rtol/atol, sum_factorization, really "
+            "installed in a private cwd / XDG_CONFIG_HOME before the first get_options(), for forms and expressions, a request "
+            "being keyed by its merged options; forms and expressions living on two meshes, named under every seed and with "
+            "id offsets 0/1/9) and simulated in long 3-process histories with junk objects and other compilations in between.  "
             "Each Name event really runs jit.compile_forms / compile_expressions with get_cached_module and cffi "
             "intercepted from outside: the names are the ones jit computes, the code class is a hash of exactly what "
             "jit hands to cffi (source and cdef with names normalised, final compiler arguments, libraries, debug flag).  "
